@@ -587,10 +587,12 @@ class Gen(object):
             if tname not in used and tmod == self.cur_index:
                 used.add(tname)
                 c = Comp(tname, T('REF', ref=tref))
+                if rnd.random() < 0.5:
+                    self.reconstrain(c.t, self.cur_index)       # its own SIZE / range on the shared reference
                 x = rnd.random()
-                if x < 0.6:
+                if x < 0.4:
                     self.maybe_default(c)
-                elif x < 0.8:
+                elif x < 0.55:
                     c.optional = True
                 self.feat('twin_member')
                 return c
